@@ -62,7 +62,7 @@ func PlanFor(prop, tier string) (*Plan, error) {
 		p.Monitors = func() []Monitor { return []Monitor{NewC12()} }
 		p.Rule = "cancel attempted by the auctioneer, another auctioneer and a bidder on every auction in every status at every instant relative to its start (including auctions created already open); decision compared with signer = auctioneer and status = waiting; effects checked on acceptance; non-trivial = distinct (signer class, status, position to start, state) decisions"
 	case "C09":
-		p.Scenarios = append(vestingScenarios(tier), S1a(tier, true))
+		p.Scenarios = append(vestingScenarios(tier), S1a(tier, true), S5big())
 		p.Monitors = func() []Monitor { return []Monitor{NewC09()} }
 		p.Rule = "schedules x proceeds x block patterns: fixed-price auction at price 1 so that one or two paying-denominated bids produce any proceeds in the grid; every subset of release instants hit exactly / skipped / overshot; the split at settlement is compared with floor(proceeds x weight) / remainder-to-last in exact rationals and every block with the instalments due and unreleased at its start; non-trivial = distinct (proceeds, weights) splits and distinct (state, due set, time) releases"
 	case "C11":
@@ -73,7 +73,7 @@ func PlanFor(prop, tier string) (*Plan, error) {
 		p.Monitors = func() []Monitor { return []Monitor{NewC11()} }
 		p.Rule = "chains of modifications of every bid by owner, other bidder and outsider over the (price, amount) grid incl. lower / equal / higher in each coordinate, wrong denom, below the floor, unknown bid, in every auction status; decision compared in both directions with the reference predicate; on acceptance identity, monotonicity and charge = reservation increase; in every transition no bid disappears or shrinks; non-trivial = distinct decisions"
 	case "C13":
-		p.Scenarios = []*Scenario{S2b(tier, 1, true), S2c(tier, "0.25", 1), S2c(tier, "1", 2), S2c(tier, "0.5", 0)}
+		p.Scenarios = []*Scenario{S2b(tier, 1, true), S2c(tier, "0.25", 1), S2c(tier, "1", 2), S2c(tier, "0.5", 0), S2max()}
 		if !quick {
 			p.Scenarios = append(p.Scenarios, S2a(tier, false), S2b(tier, 2, false), S2b(tier, 1, true), S2c(tier, "0.5", 2), S2c(tier, "0.1", 1))
 		}
